@@ -102,9 +102,12 @@ type VCtx struct {
 	heldAtEntry *Term
 	published map[string]bool
 	freshObjs []*Term
+	mineCache *Term
+	mineCacheN int
 	freshKeys []*Term           // objects and channels allocated by this invocation (possible ghost-map keys)
 	allFresh  []*Term           // every struct object allocated by this invocation
 	storedIn  map[string][]Val  // values stored into a not yet published fresh object / local cell (published with it)
+	pubCells  map[string]*Loc // captured variables of the closure under verification that follow the publication discipline
 	exemptFresh []*Term // set while translating a global clause to be proved: unpublished fresh objects
 	lastCSEntry *State // state right after the most recent lock acquisition (csold)
 	localMon  *localMonState
@@ -391,8 +394,22 @@ func (c *VCtx) heap(st *State, name string, sort Sort) *Term {
 // heapWellFormed: every reference stored in an unconstrained heap version denotes an object that already
 // exists at that moment (so objects allocated later are different from everything reachable now).
 func (c *VCtx) heapWellFormed(st *State, name string, h *Term) {
-	if name == "G:alloc" || strings.HasPrefix(name, "G:") || strings.HasPrefix(name, "M:") {
+	if name == "G:alloc" || strings.HasPrefix(name, "M:") {
 		return
+	}
+	if strings.HasPrefix(name, "G:") {
+		// ghost maps whose values are objects (not invocation identities): their entries denote existing objects
+		ok := false
+		if c.gmaps != nil {
+			for _, g := range c.gmaps {
+				if g.heap == name && g.kind != "owned" {
+					ok = true
+				}
+			}
+		}
+		if !ok {
+			return
+		}
 	}
 	k, v := arrParts(h.Sort)
 	if k != SRef {
